@@ -10,7 +10,7 @@ COMMON_TRUSTED = [
 
 PROPS = {
     'C02': {
-        'units': ['driver'],
+        'units': ['driver', 'chainindex'],
         'native': ['c02_'],
         'kani_quick': [],
         'kani_thorough': [],
